@@ -8,8 +8,6 @@ open Gold Gold.Peg Gold.Gram
 
 variable {Z : Pos} {F : Nat}
 
-theorem PLeaf.e_le {lo hi : Pos} {v : Tree} (h : PLeaf Z lo hi v) : v.rng.e.le hi = true := by
-  obtain ⟨t, rfl, _, _, h, _⟩ := h; exact h
 
 theorem POpt.mono_hi {Q : Post} (hQ : Good Z Q) {lo hi hi' : Pos} {v : Tree} (h : POpt Q lo hi v) (h' : hi.le hi' = true) :
     POpt Q lo hi' v := by
@@ -55,7 +53,7 @@ theorem Der.loopUntil {ks : List Kind} {item : G} {self : Nat} (hi : Der Γ Δ Z
     exact Or.inr (PLoop.intro (m := lo) (Pos.le_refl _) (Or.inl ⟨rfl, h⟩))
   · rintro lo hi v (⟨_, rfl, va, _, m1, rfl, ⟨t, rfl, a, b, c, d⟩, vb, _, m2, rfl, ⟨rfl, e⟩, rfl, hend⟩ | h)
     · show PLoop Z (PLeaf Z) lo hi (loopVal [] (Tree.leaf t))
-      exact PLoop.intro (m := lo) (Pos.le_refl _) (Or.inr ⟨t, rfl, a, b, Pos.le_trans c (Pos.le_trans e hend), d⟩)
+      exact PLoop.intro (m := lo) (Pos.le_refl _) (Or.inr ⟨t, rfl, a, b, c.mono (Pos.le_trans e hend), d⟩)
     · obtain ⟨items, e, m, rfl, hl, he⟩ := h.elim good_leaf
       exact PLoop.intro hl he
 
@@ -174,10 +172,14 @@ theorem d_gExternal : Der Γ Δ Z F gExternal (PLeaf Z) := by
   obtain ⟨t0, rfl, a0, b0, c0, d0⟩ := h0
   obtain ⟨t1, rfl, a1, b1, c1, d1⟩ := h1
   shape_simp
-  refine ⟨_, rfl, ?_, ?_, ?_, d1⟩
-  · exact a0
+  have p0 := c0.1; have p1 := b1.1
+  refine ⟨_, rfl, a0, ⟨?_, ?_⟩, ⟨?_, fun hk => Pos.le_trans (c1.2 hk) hend⟩, d1⟩
   · simp only [rng_leaf, Range.span]; pos_arith
-  · simp only [rng_leaf, Range.span]; pos_arith
+  · intro hk
+    have p2 := b1.2 hk
+    simp only [rng_leaf, Range.span]; pos_arith
+  · have p3 := c1.1
+    simp only [rng_leaf, Range.span]; pos_arith
 
 theorem d_gMethodMods : Der Γ Δ Z F gMethodMods (PList (PLeaf Z)) := by
   refine Der.repeatList good_leaf ?_ (hc.1 nMethodMods)
@@ -185,14 +187,14 @@ theorem d_gMethodMods : Der Γ Δ Z F gMethodMods (PList (PLeaf Z)) := by
 
 theorem d_gParamDecl : Der Γ Δ Z F gParamDecl (PReal Z) := by
   unfold gParamDecl
-  refine Der.map (Q := PSeqN [POpt (PLeaf Z), PLeaf Z,
+  refine Der.map (Q := PSeqN [POpt (PLeaf Z), PLeafT Z,
       POr (PSeqN [PLeaf Z, PReal Z]) (fun lo hi v => v = Tree.none ∧ lo.le hi = true)]) ?_ ?_
   · der_seq
     · exact Der.opt (Der.toks _)
-    · exact Der.toks _
+    · exact Der.toksT _ identKinds_tight
     · exact Der.ifTok (Der.prepend (r_type hc)) (Der.eps _)
-  · rintro lo hi v ⟨_, rfl, v0, _, m1, rfl, h0, v1, _, m2, rfl, h1, v2, _, m3, rfl, h2, rfl, hend⟩
-    have f1 := h1.facts; have g1 := h1.e_le
+  · rintro lo hi v ⟨_, rfl, v0, _, m1, rfl, h0, v1, _, m2, rfl, ⟨h1, g1⟩, v2, _, m3, rfl, h2, rfl, hend⟩
+    have f1 := h1.facts
     rcases h2 with ⟨_, rfl, cl, _, n1, rfl, hcl, ty, _, n2, rfl, hty, rfl, hend2⟩ | ⟨rfl, e2⟩
     · have fc := hcl.facts; have ft := hty.facts
       rcases h0 with ⟨rfl, e0⟩ | h0
@@ -254,31 +256,31 @@ theorem d_gUses : Der Γ Δ Z F gUses (PReal Z) := by
 omit hc in
 theorem d_gConstDecl : Der Γ Δ Z F gConstDecl (PReal Z) := by
   unfold gConstDecl
-  refine Der.map (Q := PSeqN [PSeqN [PLeaf Z, PLeaf Z, PLeaf Z, PLeaf Z], PAny]) ?_ ?_
+  refine Der.map (Q := PSeqN [PSeqN [PLeaf Z, PLeafT Z, PLeaf Z, PLeaf Z], PAny]) ?_ ?_
   · der_seq
-    · exact Der.prepend (by der_seq <;> first | exact Der.tok _ | exact Der.toks _)
+    · exact Der.prepend (by der_seq <;> first | exact Der.tok _ | exact Der.toks _ | exact Der.tokT _ (by decide))
     · exact Der.anyOpt good_leaf (Der.tok _)
-  · rintro lo hi v ⟨_, rfl, _, _, m1, rfl, ⟨_, rfl, c, _, n1, rfl, hcn, id, _, n2, rfl, hid, eq, _, n3, rfl, heq, val, _, n4, rfl, hval, rfl, hend2⟩,
+  · rintro lo hi v ⟨_, rfl, _, _, m1, rfl, ⟨_, rfl, c, _, n1, rfl, hcn, id, _, n2, rfl, ⟨hid, g1⟩, eq, _, n3, rfl, heq, val, _, n4, rfl, hval, rfl, hend2⟩,
       ml, _, m2, rfl, hml, rfl, hend⟩
     shape_simp
     have e5 : m1.le m2 = true := hml
-    have f0 := hcn.facts; have f1 := hid.facts; have g1 := hid.e_le; have f2 := heq.facts; have f3 := hval.facts
+    have f0 := hcn.facts; have f1 := hid.facts; have f2 := heq.facts; have f3 := hval.facts
     exact span_real_sel (a := c) (b := val) (n := id) (by decide) hcn.item (by pos_chain) hval.ok (by pos_chain) NodeOKL.nil
       hid.ok (by pos_chain) (by pos_chain)
 
 theorem d_gTypeDecl : Der Γ Δ Z F gTypeDecl (PReal Z) := by
   unfold gTypeDecl
-  refine Der.map (Q := PSeqN [PAny, PLeaf Z, PLeaf Z, PLeaf Z, PReal Z]) ?_ ?_
+  refine Der.map (Q := PSeqN [PAny, PLeaf Z, PLeafT Z, PLeaf Z, PReal Z]) ?_ ?_
   · der_seq
     · exact d_optAnn hc
     · exact Der.tok _
-    · exact Der.tok _
+    · exact Der.tokT _ (by decide)
     · exact Der.tok _
     · exact r_type hc
-  · rintro lo hi v ⟨_, rfl, v0, _, m1, rfl, h0, v1, _, m2, rfl, h1, v2, _, m3, rfl, h2, v3, _, m4, rfl, h3, v4, _, m5, rfl, h4, rfl, hend⟩
+  · rintro lo hi v ⟨_, rfl, v0, _, m1, rfl, h0, v1, _, m2, rfl, h1, v2, _, m3, rfl, ⟨h2, g2⟩, v3, _, m4, rfl, h3, v4, _, m5, rfl, h4, rfl, hend⟩
     shape_simp
     have e0 : lo.le m1 = true := h0
-    have f1 := h1.facts; have f2 := h2.facts; have g2 := h2.e_le; have f3 := h3.facts; have f4 := h4.facts
+    have f1 := h1.facts; have f2 := h2.facts; have f3 := h3.facts; have f4 := h4.facts
     exact span_real_sel (a := v1) (b := v4) (n := v2) (by decide) (good_item.mono h1.item e0 (Pos.le_refl _)) (by pos_chain) h4.ok
       (by pos_chain) (NodeOKL.one h4.ok) h2.ok (by pos_chain) (by pos_chain)
 
@@ -298,15 +300,15 @@ theorem d_gModule : Der Γ Δ Z F gModule (PReal Z) := by
 
 theorem d_gClass : Der Γ Δ Z F gClass (PReal Z) := by
   unfold gClass
-  refine Der.map (Q := PSeqN [PAny, PLeaf Z, PLeaf Z, POpt (PSeqN [PLeaf Z, PLeaf Z, PLeaf Z])]) ?_ ?_
+  refine Der.map (Q := PSeqN [PAny, PLeaf Z, PLeafT Z, POpt (PSeqN [PLeaf Z, PLeaf Z, PLeaf Z])]) ?_ ?_
   · der_seq
     · exact d_optAnn hc
     · exact Der.tok _
-    · exact Der.tok _
+    · exact Der.tokT _ (by decide)
     · exact Der.opt (by unfold gParentClass; der_seq <;> exact Der.tok _)
-  · rintro lo hi v ⟨_, rfl, v0, _, m1, rfl, h0, v1, _, m2, rfl, h1, v2, _, m3, rfl, h2, v3, _, m4, rfl, h3, rfl, hend⟩
+  · rintro lo hi v ⟨_, rfl, v0, _, m1, rfl, h0, v1, _, m2, rfl, h1, v2, _, m3, rfl, ⟨h2, g2⟩, v3, _, m4, rfl, h3, rfl, hend⟩
     have e0 : lo.le m1 = true := h0
-    have f1 := h1.facts; have f2 := h2.facts; have g2 := h2.e_le
+    have f1 := h1.facts; have f2 := h2.facts
     rcases h3 with ⟨rfl, e3⟩ | ⟨_, rfl, a, _, n1, rfl, ha, b, _, n2, rfl, hb, c, _, n3, rfl, hcc, rfl, hend2⟩
     · shape_simp
       exact span_real_sel (a := v1) (b := v2) (n := v2) (by decide) (good_item.mono h1.item e0 (Pos.le_refl _)) (by pos_chain) h2.ok
